@@ -32,10 +32,15 @@ def captureDiff (alg : Alg) (E : Env) (repair : Bool) (os oe ns ne : Nat) (w : W
   | .error e => .error e
   | .ok ((_, _, r), w) => .ok (traceOps r.trace, w)
 
+/-- `ops.iter().map(|op| if let Equal{len,..} = op { len } else { 0 }).sum()` -/
+def sumEqual : List Op → Nat
+  | [] => 0
+  | .equal _ _ l :: cs => l + sumEqual cs
+  | _ :: cs => sumEqual cs
+
 /-- `get_diff_ratio` as the exact pair `(2 * matches, old_len + new_len)`; the `f32` value is
-computed by the driver from this pair with the same IEEE operations. -/
-def ratioPair (ops : List Op) (oldLen newLen : Nat) : Nat × Nat :=
-  (2 * (ops.foldl (fun a x => match x with | .equal _ _ l => a + l | _ => a) 0), oldLen + newLen)
+computed from this pair with the same IEEE operations (`ratioF` in Model/Close.lean). -/
+def ratioPair (ops : List Op) (oldLen newLen : Nat) : Nat × Nat := (2 * sumEqual ops, oldLen + newLen)
 
 /-! ### `group_diff_ops` -/
 
